@@ -228,6 +228,11 @@ def watch_roots(view, cap, graph):
                 issues.append(Issue("watch-result-without-id", "watch[%s]" % w_.expression))
             else:
                 issues.append(Issue("watch-no-result", "watch[%s]" % w_.expression, "error %r" % w_.error_result))
+        elif w_.HasField("good_result") and not w_.error_result:
+            # evaluated on its own against the paused frame the expression fails (e.g. a name that exists nowhere in
+            # the frame): a value can only come from somewhere else
+            issues.append(Issue("watch-result-for-failing-expression", "watch[%s]" % w_.expression,
+                                "fails with %s" % type(ref[1]).__name__))
     return roots, issues
 
 
